@@ -59,10 +59,12 @@ impl<I: Interner> SpecializationPriorities<I> {
     }
 
     /// Store the priority of an impl (used during construction).
-    /// Panics if we have already stored the priority for this impl.
+    /// An impl that is reachable along several paths of the specialization
+    /// graph (e.g. the last impl of a chain `T`, `Vec<T>`, `Vec<i32>`) keeps
+    /// the highest priority, i.e. the length of the longest path leading to it.
     fn insert(&mut self, impl_id: ImplId<I>, p: SpecializationPriority) {
-        let old_value = self.map.insert(impl_id, p);
-        assert!(old_value.is_none());
+        let entry = self.map.entry(impl_id).or_insert(p);
+        *entry = std::cmp::max(*entry, p);
     }
 }
 
